@@ -97,15 +97,17 @@ static void SetOpSize(tSymbolSize NSize) {
 }
 
 /*!------------------------------------------------------------------------
- * \fn     DecodeRegCore(const char *pArg, tSymbolSize *pSize, Byte *pResult)
+ * \fn     DecodeRegCore(const char *pArg, tSymbolSize ReqSize, tSymbolSize *pSize, Byte *pResult)
  * \brief  check whether argument is a CPU register
  * \param  pArg source argument
+ * \param  ReqSize operand size of the statement (Rn is a register pair if 32 bits)
  * \param  pSize register size if yes
  * \param  pResult register number if yes
  * \return Reg eval result
  * ------------------------------------------------------------------------ */
 
-static tRegEvalResult DecodeRegCore(char const* pArg, tSymbolSize* pSize, Byte* pResult) {
+static tRegEvalResult DecodeRegCore(
+        char const* pArg, tSymbolSize ReqSize, tSymbolSize* pSize, Byte* pResult) {
     int len;
 
     if (!as_strcasecmp(pArg, "SP")) {
@@ -119,7 +121,7 @@ static tRegEvalResult DecodeRegCore(char const* pArg, tSymbolSize* pSize, Byte* 
         && (pArg[1] <= '7')) {
         *pResult = pArg[1] - '0';
         if (len == 2) {
-            if (OpSize == eSymbolSize32Bit) {
+            if (ReqSize == eSymbolSize32Bit) {
                 *pSize = eSymbolSize32Bit;
                 if (*pResult & 1) {
                     WrError(ErrNum_InvRegPair);
@@ -189,7 +191,7 @@ static tRegEvalResult DecodeReg(
     tEvalResult    EvalResult;
     tRegEvalResult RegEvalResult;
 
-    RegEvalResult = DecodeRegCore(pArg->str.p_str, pSize, pResult);
+    RegEvalResult = DecodeRegCore(pArg->str.p_str, OpSize, pSize, pResult);
     if (RegEvalResult != eIsNoReg) {
         *pResult &= ~REG_MARK;
         return RegEvalResult;
@@ -2079,11 +2081,12 @@ static void InternSymbol_XA(char* pArg, TempResult* pResult) {
     Byte        Reg;
     tSymbolSize Size;
 
-    if (*AttrPart.str.p_str) {
-        OpSize = AttrPartOpSize;
-    }
+    /* may be called for statements that never reach MakeCode_XA (EQU, SET, IF):
+       only the attribute of this statement decides, not the last instruction's OpSize */
 
-    if (DecodeRegCore(pArg, &Size, &Reg)) {
+    if (DecodeRegCore(
+                pArg, *AttrPart.str.p_str ? AttrPartOpSize : eSymbolSizeUnknown, &Size,
+                &Reg)) {
         pResult->Typ                       = TempReg;
         pResult->DataSize                  = Size;
         pResult->Contents.RegDescr.Reg     = Reg;
